@@ -83,7 +83,7 @@ NAME_POOLS = {
 
 
 def n_cases(tier):
-    return 150 if tier == "quick" else 2500
+    return 960 if tier == "quick" else 7680
 
 
 # --------------------------------------------------------------------------------------
